@@ -381,6 +381,7 @@ func init() {
 				// a refused request leaves the watermark where it was
 				c.StateStoreDiscipline("C09", sl, "att")
 				c.StateStoreDiscipline("C09", sl, "prop")
+				c.StoreCommit("C03", sl) // what the batch path records is what a one-at-a-time history records
 			}
 			c.SignerRefusalReasons("C09")
 			c.ScatterPartition("C09")
